@@ -1808,6 +1808,72 @@ def fold_consts(func):
     return Func(func.module, func.qualname, root, func.cls, func.parent)
 
 
+def delist_unpack(func):
+    """A Func in which a local list that is only built by `L = []`, n straight-line `L.append(e_k)` statements (each
+    executed exactly once on every path that goes on: at block level, or in an `if` arm whose other arm always leaves)
+    and then unpacked by `t_1, ..., t_n = L` is replaced by the assignments `t_k = e_k` at the append sites."""
+    import copy
+
+    node = copy.deepcopy(func.node)
+    body = node.body
+    for st in list(walk_stmts(body)):
+        if not (isinstance(st, ast.Assign) and len(st.targets) == 1 and isinstance(st.targets[0], ast.Tuple) and isinstance(st.value, ast.Name) and all(isinstance(t, ast.Name) for t in st.targets[0].elts)):
+            continue
+        L = st.value.id
+        uses = [n for n in ast.walk(node) if isinstance(n, ast.Name) and n.id == L]
+        inits = [x for x in walk_stmts(body) if isinstance(x, ast.Assign) and len(x.targets) == 1 and isinstance(x.targets[0], ast.Name) and x.targets[0].id == L]
+        apps = [x for x in walk_stmts(body) if isinstance(x, ast.Expr) and isinstance(x.value, ast.Call) and isinstance(x.value.func, ast.Attribute) and x.value.func.attr == "append" and isinstance(x.value.func.value, ast.Name) and x.value.func.value.id == L and len(x.value.args) == 1]
+        if len(inits) != 1 or not (isinstance(inits[0].value, ast.List) and not inits[0].value.elts) or len(apps) != len(st.targets[0].elts) or len(uses) != 2 + len(apps):
+            continue
+
+        # every append runs exactly once before the unpack: walk the block of the unpack
+        def once(stmts, acc):
+            for x in stmts:
+                if x is st:
+                    return True
+                if any(x is a for a in apps):
+                    acc.append(x)
+                elif isinstance(x, ast.If):
+                    arms = [x.body, x.orelse]
+                    live = [a for a in arms if not _always_returns(a) and not (a and isinstance(a[-1], (ast.Continue, ast.Break)))]
+                    if any(any(y is a for a in apps) for y in ast.walk(x)):
+                        if len(live) != 1:
+                            return False
+                        if any(any(y is a for a in apps) for arm in arms if arm is not live[0] for z in arm for y in ast.walk(z)):
+                            return False
+                        r = once(live[0], acc)
+                        if r is not None and r is not True and r is not False:
+                            pass
+                        if r is False:
+                            return False
+                elif any(any(y is a for a in apps) for y in ast.walk(x)):
+                    return False
+            return None
+
+        blk = None
+        for n in ast.walk(node):
+            for fld in ("body", "orelse", "finalbody"):
+                lst = getattr(n, fld, None)
+                if isinstance(lst, list) and any(x is st for x in lst):
+                    blk = lst
+        acc = []
+        if blk is None or once(blk, acc) is not True or len(acc) != len(apps):
+            continue
+        for tgt, a in zip(st.targets[0].elts, acc):
+            new = ast.copy_location(ast.Assign(targets=[ast.Name(id=tgt.id, ctx=ast.Store())], value=a.value.args[0]), a)
+            for n in ast.walk(node):
+                for fld in ("body", "orelse", "finalbody"):
+                    lst = getattr(n, fld, None)
+                    if isinstance(lst, list):
+                        for i, x in enumerate(lst):
+                            if x is a:
+                                lst[i] = new
+        blk[blk.index(st)] = ast.copy_location(ast.Pass(), st)
+        ast.fix_missing_locations(node)
+        return Func(func.module, func.qualname, node, func.cls, func.parent)
+    return func
+
+
 def inline_callable_aliases(func):
     """A Func in which a local bound to a plain callable name (`opener = gzip.open`) is replaced by that name where it is
     called later in the same block (until rebound): `opener(p, "rt")` -> `gzip.open(p, "rt")`."""
